@@ -133,6 +133,16 @@ CURATED_ERR = [
     ("err-at-start-only", "s = @error"),
     ("err-then-tokens", "s = @error A B | C"),
     ("err-after-nullable", "s = n @error A | B\nn = @empty"),
+    # @error as the last symbol of a repeated construct: ERROR itself is a lookahead of the state after @error
+    ("err-rep-star", "s = item*\nitem = A B | @error"),
+    ("err-rep-plus", "s = item+ E\nitem = A B | @error"),
+    ("err-rep-list", "s = @list(item, C)\nitem = A | @error"),
+    ("err-adjacent-rules", "s = x y\nx = A | @error\ny = B | @error"),
+    ("err-nested-rep", "s = blk*\nblk = L item* R | @error\nitem = A | @error"),
+    ("err-twice-in-prod", "s = @error A @error B | C"),
+    ("err-opt-then-err", "s = x? y E\nx = A | @error\ny = B | @error"),
+    ("err-left-rec", "s = s A | s @error | B"),
+    ("err-right-rec", "s = A s | @error s | B"),
 ]
 
 CURATED_BOUNDS = [
@@ -328,3 +338,71 @@ CURATED_CONFLICT = [
 
 def curated_conflict():
     return [gram(n, t) for n, t in CURATED_CONFLICT]
+
+
+# ------------------------------------------------------------------ order variants and slow-fixpoint shapes
+
+def reorder(case, order, tag):
+    """the same grammar with its rules declared in another order (references are renumbered)"""
+    import copy
+    c = copy.deepcopy(case)
+    n = len(c["rules"])
+    newpos = {old: new for new, old in enumerate(order)}
+    c["rules"] = [c["rules"][old] for old in order]
+
+    def fix(T):
+        if T["k"] != "err":
+            if T["t"] == 0:
+                T["i"] = newpos[T["i"]]
+            if T["k"] in ("list", "listopt") and T["st"] == 0:
+                T["si"] = newpos[T["si"]]
+    for r in c["rules"]:
+        for p in r["prods"]:
+            for T in p["terms"]:
+                fix(T)
+    c["start"] = newpos[c["start"]]
+    c["id"] = case["id"] + tag
+    return c
+
+
+def order_variants(cases, rng=None, reverse=True, shuffles=0):
+    out = []
+    for c in cases:
+        n = len(c["rules"])
+        if n < 2:
+            continue
+        if reverse:
+            out.append(reorder(c, list(range(n - 1, -1, -1)), "~rev"))
+        for k in range(shuffles):
+            o = list(range(n))
+            rng.shuffle(o)
+            out.append(reorder(c, o, "~sh%d" % k))
+    return out
+
+
+def chain_family():
+    """nullability / FIRST information that needs several passes over the productions to arrive:
+    alias chains of depth d ending in an optional, declared forward or backward, used before or after"""
+    out = []
+    for d in (1, 2, 3, 4, 5):
+        for shape in ("opt", "empty", "star"):
+            last = {"opt": "Y?", "empty": "Y | @empty", "star": "Y*"}[shape]
+            chain = ["c1 = Y Z | c2" if d > 1 else "c1 = Y Z | " + last.replace("Y | @empty", "@empty")]
+            for k in range(2, d):
+                chain.append("c%d = c%d" % (k, k + 1))
+            if d > 1:
+                chain.append("c%d = %s" % (d, last))
+            users = ["s = head body", "head = P", "body = c1 X"]
+            for order in ("fwd", "bwd"):
+                ch = chain if order == "fwd" else list(reversed(chain))
+                for pos in ("before", "after"):
+                    lines = (users + ch) if pos == "before" else (["@start " + users[0]] and (ch + users))
+                    txt = "\n".join(lines)
+                    if pos == "after":
+                        txt = txt.replace("s = head body", "@start s = head body")
+                    out.append(gram("chain-%d-%s-%s-%s" % (d, shape, order, pos), txt))
+    # nullability reached only through two different chains, and FIRST through a nullable prefix of nullable rules
+    out.append(gram("chain-two-paths", "s = a b c X\na = a1\na1 = a2\na2 = A?\nb = b1 | B\nb1 = @empty\nc = a b"))
+    out.append(gram("chain-first-through-prefix", "s = n1 n2 n3 T\nn1 = m1\nm1 = A?\nn2 = m2\nm2 = m3\nm3 = B*\nn3 = C | @empty"))
+    out.append(gram("chain-mutual", "s = p Q\np = q R | r\nq = p S | r\nr = t\nt = u\nu = V?"))
+    return out
